@@ -231,15 +231,28 @@ def cmd_report(args):
                 print(f"{name} {i} {m['file']}:{m['line']} {m['func']} [{m['kind']}] {m['old'][:50]!r} -> {m['new'][:30]!r} {fired}")
 
 
+def cmd_one(args):
+    ms = {m["id"]: m for m in json.load(open(os.path.join(WORK, "mutants.json")))}
+    for i in args.ids.split(","):
+        r = run_checks(ms[i], args.repo)
+        m = ms[i]
+        print(i, f"{m['file']}:{m['line']} {m['func']} [{m['kind']}] {m['old'][:40]!r} -> {m['new'][:20]!r}")
+        for p_, x in r["fired"].items():
+            print("   ", p_, x["rc"], x["first"][:200])
+        if not r["fired"]:
+            print("    all checks exit 0")
+
+
 def main(argv=None):
     ap = argparse.ArgumentParser()
-    ap.add_argument("cmd", choices=["gen", "tests", "checks", "report"])
+    ap.add_argument("cmd", choices=["gen", "tests", "checks", "report", "one"])
+    ap.add_argument("--ids", default="")
     ap.add_argument("--repo", default="/repo")
     ap.add_argument("--jobs", type=int, default=14)
     ap.add_argument("--sample", type=int, default=0)
     ap.add_argument("--list", default="")
     args = ap.parse_args(argv)
-    {"gen": cmd_gen, "tests": cmd_tests, "checks": cmd_checks, "report": cmd_report}[args.cmd](args)
+    {"gen": cmd_gen, "tests": cmd_tests, "checks": cmd_checks, "report": cmd_report, "one": cmd_one}[args.cmd](args)
 
 
 if __name__ == "__main__":
